@@ -103,7 +103,8 @@ CHECKS = {
              'JSON codec commute, so text->JSON->text and JSON->text->JSON reach one common normal form, and every encoding of a policy evaluates to the same outcome '
              '(C09_all_encodings_same_outcome). Correspondence: Policy.MarshalJSON / PolicySet.MarshalJSON tree = model tree; Policy.UnmarshalJSON / PolicySet.UnmarshalJSON = model on '
              'encoder outputs and structure-aware mutants (objects with repeated keys, multi-member expression objects and case-folded keys are outside the '
-             'modelled domain and are not compared). Direct oracle on the Go code: AST identity, byte stability, ids, commutation with the text codec.',
+             'modelled domain and are not compared). TRANSLATED: the decoder\'s key table - the struct tags of nodeJSON and the case order of nodeJSON.ToNode are read off internal/json on every run and the model\'s node_keys is proved equal to them '
+             '(C09_decoder_keys_are_the_codes, C09_decoder_keys_are_the_declared_fields). Direct oracle on the Go code: AST identity, byte stability, ids, commutation with the text codec.',
         note=TB + 'Modelled, not verified: encoding/json (bytes <-> tree, struct decoding rules for exact-case keys). The ip-printing hypotheses are discharged for the modelled printer (Proofs/IPProofs.v).',
         technique='Coq proofs (JSON-tree codec round trip, policy sets, commutation with the text codec, same meaning) + tree-level differential correspondence + Go round-trip oracle'),
     'C10': dict(
